@@ -56,16 +56,16 @@ def _txt(v):
     if isinstance(v, Tok):
         return repr(v)
     if isinstance(v, np.ndarray):
-        return "ndarray(%s)" % _txt(v.tolist())
+        return "ndarray[%s](%s)" % (v.dtype, _txt(v.tolist()))
     if isinstance(v, np.generic):
-        return "np:%s" % _txt(v.item())
+        return "np[%s]:%s" % (v.dtype, _txt(v.item()))
     if isinstance(v, list):
         return "[%s]" % ", ".join(_txt(x) for x in v)
     if isinstance(v, tuple):
         return "(%s)" % ", ".join(_txt(x) for x in v)
     if isinstance(v, dict):
         return "{%s}" % ", ".join("%s: %s" % (_txt(k), _txt(x)) for k, x in v.items())
-    if v is None or isinstance(v, (bool, int, float, str)):
+    if v is None or isinstance(v, (bool, int, float, str, bytes)):
         return repr(v)
     return "<%s>" % type(v).__name__
 
@@ -86,16 +86,23 @@ def enc(v):
         return {"t": v.s}
     if inspect.isgenerator(v):
         return {"o": "generator"}
-    if isinstance(v, (float, list, tuple, dict, np.ndarray, np.generic)):
+    if isinstance(v, (float, list, tuple, dict, bytes, np.ndarray, np.generic)):
         return {"d": _txt(v)}
     return {"o": type(v).__name__}
 
 
 def dec(j):
     """value of the case language -> python value. None | {"s"} | {"i"} | {"t"} | {"f": float} | {"b": bool} |
-    {"l": [json scalars]} | {"tu": [...]} | {"m": [[k, v]...]} | {"nd": [ints]}"""
+    {"l": [json scalars]} | {"tu": [...]} | {"m": [[k, v]...]} | {"nd": [ints]} | {"ndf": [floats]} (float64 array) |
+    {"py": text of a Python literal: None, ints, floats, bools, bytes, dicts, empty and nested containers}"""
     if j is None:
         return None
+    if "py" in j:
+        import ast
+        return ast.literal_eval(j["py"])
+    if "ndf" in j:
+        import numpy as np
+        return np.array(j["ndf"], dtype="float64")
     if "s" in j:
         return j["s"]
     if "i" in j:
@@ -118,9 +125,9 @@ def dec(j):
     raise ValueError(j)
 
 
-def _gen(key, m, then_raise=False):
+def _gen(key, m, then_raise=False, vals=None):
     for k in range(m):
-        yield tok(key, k)
+        yield tok(key, k) if vals is None else dec(vals[k])
     if then_raise:
         raise RuntimeError("callable-raised")
 
@@ -128,14 +135,16 @@ def _gen(key, m, then_raise=False):
 STR_RESULT = "abcdefghijklmnopqrstuvwxyz"
 
 
-def result_of(key, kind, m):
-    """the object a callable of behaviour (kind, m) returns (fresh each time)"""
+def result_of(key, kind, m, vals=None):
+    """the object a callable of behaviour (kind, m) returns (fresh each time). vals (case-language values): what a `ret`
+    callable returns (vals[0]) / what a generator yields, instead of opaque tokens: None, ints, floats, bools, dicts,
+    empty containers, nested tuples, bytes, arrays"""
     if kind == "ret":
-        return tok(key, 0)
+        return tok(key, 0) if vals is None else dec(vals[0])
     if kind == "gen":
-        return _gen(key, m)
+        return _gen(key, m, False, vals)
     if kind == "genraise":
-        return _gen(key, m, True)
+        return _gen(key, m, True, vals)
     if kind == "list":
         return [tok(key, k) for k in range(m)]
     if kind == "tuple":
@@ -148,8 +157,16 @@ def result_of(key, kind, m):
     raise AssertionError(kind)
 
 
-def yielded(key, kind, m):
+def yielded(key, kind, m, vals=None):
     """the values iterating that object gives, in order (None: it is not iterable)"""
+    if kind in ("gen", "genraise") and vals is not None:
+        return [dec(v) for v in vals[:m]]
+    if kind == "ret" and vals is not None:
+        v = dec(vals[0])
+        try:
+            return list(iter(v))
+        except TypeError:
+            return None
     if kind in ("gen", "genraise", "list", "tuple"):
         return [tok(key, k) for k in range(m)]
     if kind == "str":
@@ -164,10 +181,11 @@ class Rec:
     """Recording callable. Pickled by reference to this (importable) module, so the copy that
     func_dec creates records into the same RECORD."""
 
-    def __init__(self, key, kind, m):
+    def __init__(self, key, kind, m, vals=None):
         self.key = key
         self.kind = kind
         self.m = m
+        self.vals = vals
         self.__name__ = "f_" + key
 
     def __call__(self, *args, **kwargs):
@@ -176,7 +194,7 @@ class Rec:
             return fn_tok(self.key, args)
         if self.kind == "raise":
             raise RuntimeError("callable-raised")
-        return result_of(self.key, self.kind, self.m)
+        return result_of(self.key, self.kind, self.m, getattr(self, "vals", None))
 
     def __repr__(self):
         return "Rec(%s)" % self.key
@@ -193,6 +211,18 @@ def _wrap(rec):
     return f
 
 
+_EP_COUNT = [0]
+
+
+def register_entrypoint(f):
+    """makes f a module-level name of THIS module and returns the 'package.module.function' string that
+    cascade.low.func.resolve_callable turns back into f"""
+    _EP_COUNT[0] += 1
+    name = "EP_%d" % (_EP_COUNT[0] % 4096)      # a bounded number of module attributes
+    globals()[name] = f
+    return __name__ + "." + name
+
+
 def _callable(case, rec):
     return _wrap(rec) if case.get("fn_wrap") else rec
 
@@ -202,12 +232,18 @@ def result_json(key, beh, vals=None):
     kind, m = beh["kind"], beh.get("m", 0)
     if vals is not None:
         return {"kind": "value", "vals": [enc(vals[0])]}
+    bv = beh.get("vals")
     if kind == "ret":
+        if bv is not None:
+            ys = yielded(key, kind, m, bv)
+            if ys is not None:      # the returned object can be iterated (and is no iterator): a list, tuple, dict, str, bytes, array
+                return {"kind": "lst", "self": enc(dec(bv[0])), "vals": [enc(y) for y in ys]}
+            return {"kind": "value", "vals": [enc(dec(bv[0]))]}
         return {"kind": "value", "vals": [enc(tok(key, 0))]}
     if kind == "gen":
-        return {"kind": "gen", "vals": [enc(v) for v in yielded(key, kind, m)]}
+        return {"kind": "gen", "vals": [enc(v) for v in yielded(key, kind, m, bv)]}
     if kind == "genraise":
-        return {"kind": "genraise", "vals": [enc(v) for v in yielded(key, kind, m)]}
+        return {"kind": "genraise", "vals": [enc(v) for v in yielded(key, kind, m, bv)]}
     if kind in ("list", "tuple", "str", "nd"):
         return {"kind": "lst", "self": enc(result_of(key, kind, m)), "vals": [enc(v) for v in yielded(key, kind, m)]}
     return {"kind": "raises", "vals": []}
@@ -346,8 +382,17 @@ def build(case):
         names = [t["name"] for t in case["tasks"]]
         for t in case["tasks"]:
             beh = t["beh"]
-            f = _callable(case, Rec(t["name"], beh["kind"], beh.get("m", 0)))
-            definition = TaskDefinition(func=TaskDefinition.func_enc(f), environment=[], entrypoint="", input_schema={},
+            f = _callable(case, Rec(t["name"], beh["kind"], beh.get("m", 0), beh.get("vals")))
+            # how the task names its callable: a cloud-pickled `func` (what graph2job writes), an `entrypoint`
+            # 'package.module.function' resolved by runner.run through resolve_callable, or both (func is preferred:
+            # the entrypoint then names ANOTHER callable, which must not run)
+            how = t.get("entry")
+            func_s, entry_s = TaskDefinition.func_enc(f), ""
+            if how == "entrypoint":
+                func_s, entry_s = None, register_entrypoint(f)
+            elif how == "both":
+                entry_s = register_entrypoint(Rec(t["name"] + "!entrypoint-must-not-run", "ret", 1))
+            definition = TaskDefinition(func=func_s, environment=[], entrypoint=entry_s, input_schema={},
                                         output_schema={o: "Any" for o in t["outs"]})
             tasks[t["name"]] = TaskInstance(definition=definition, static_input_kw={k: dec(v) for k, v in t["kw"]},
                                             static_input_ps={str(i): dec(v) for i, v in t["ps"]})
@@ -372,6 +417,7 @@ def build(case):
         res["job"] = JobInstance(tasks=tasks, edges=edges)
         if case.get("via_gateway"):
             res["job"], res["gateway"] = _via_gateway(res["job"])
+            res["gateway_expect_file"] = GATEWAY_EXPECT[0]
         res["order"] = names
         return res
 
@@ -385,7 +431,7 @@ def build(case):
                 # the very callable object of an earlier node (the case repeats its behaviour)
                 f = callables[nd["share"]]
             else:
-                f = _callable(case, Rec(nd["name"], beh["kind"], beh.get("m", 0)))
+                f = _callable(case, Rec(nd["name"], beh["kind"], beh.get("m", 0), beh.get("vals")))
             callables.append(f)
             args, intent = _declared_args(nd["args"])
             kwargs = {k: dec(v) for k, v in nd["kwargs"]}
@@ -406,7 +452,7 @@ def build(case):
         payload_objs, keys_of = [], []
         for nd in case["nodes"]:
             beh = nd["beh"]
-            f = _callable(case, Rec(nd["name"], beh["kind"], beh.get("m", 0)))
+            f = _callable(case, Rec(nd["name"], beh["kind"], beh.get("m", 0), beh.get("vals")))
             args, intent = _declared_args(nd["args"])
             kwargs = {k: dec(v) for k, v in nd["kwargs"]}
             ins = [nodes[pi] if o is None else nodes[pi].get_output(o) for pi, o in nd["inputs"]]
@@ -442,8 +488,9 @@ def build(case):
         s, coords, ms = case["srcs"], case["coords"], case["m"]
         n = len(coords)
         gens = np.empty((s,), dtype=object)
+        gvals = case.get("gvals") or [None] * s      # what source i yields instead of opaque tokens (ms[i] values)
         for i in range(s):
-            gens[i] = Rec("g%d" % i, "gen", ms[i])
+            gens[i] = Rec("g%d" % i, "gen", ms[i], gvals[i])
         act = fluent.from_source(gens, yields=("y", list(coords)), dims=["x"], coords={"x": list(range(s))})
         cons = np.empty((s, n), dtype=object)
         for i in range(s):
@@ -451,10 +498,15 @@ def build(case):
                 cons[i, j] = Rec("c%d_%d" % (i, j), "ret", 1)
         act2 = act.map(cons)
         gnames = {}
+        res["yield_refs"] = []      # [generator node, N, position k, (parent, output name) of the real array element at LABEL coords[k]]
         for i in range(s):
             outp = act.nodes.sel(x=i, y=coords[0]).item()
             gnames[i] = outp.parent.name
-            spec[outp.parent.name] = {"args": [], "kwargs": {}, "outs": [str(k) for k in range(n)], "beh": {"kind": "gen", "m": ms[i]},
+            for k in range(n):
+                el = act.nodes.sel(x=i, y=coords[k]).item()
+                res["yield_refs"].append([gnames[i], n, k, [getattr(getattr(el, "parent", None), "name", None), getattr(el, "name", None)]])
+            spec[outp.parent.name] = {"args": [], "kwargs": {}, "outs": [str(k) for k in range(n)],
+                                      "beh": {"kind": "gen", "m": ms[i]} if gvals[i] is None else {"kind": "gen", "m": ms[i], "vals": gvals[i]},
                                       "key": "g%d" % i, "wellformed": True, "parents": []}
         # the author declared: the k-th yielded value has coordinate coords[k]
         for i in range(s):
@@ -483,6 +535,13 @@ def build(case):
     res["ser"] = _ser_nodes(res["graph"])
     try:
         res["job"] = graph2job(res["graph"])
+        # lowering reads the graph: lowering the same graph object again gives the same job
+        try:
+            again = canon_job(graph2job(res["graph"]))
+        except Exception as e:
+            again = {"error": type(e).__name__}
+        if again != canon_job(res["job"]):
+            res["relower"] = again
     except KeyError:
         res["lower_error"] = "keyError"
     except NotImplementedError:
@@ -491,6 +550,7 @@ def build(case):
         res["lower_error"] = "other:" + type(e).__name__
     if case.get("via_gateway") and res.get("job") is not None:
         res["job"], res["gateway"] = _via_gateway(res["job"])
+        res["gateway_expect_file"] = GATEWAY_EXPECT[0]
     # topological order = declaration order for hand/fluent; sources first for prog
     if kind == "fprog":
         pass
@@ -499,6 +559,9 @@ def build(case):
     else:
         res["order"] = [nd.name for nd in nodes]
     return res
+
+
+GATEWAY_EXPECT = [None]     # whether the last job given to _via_gateway had only JSON-native static values (then it MUST travel as a file)
 
 
 def _via_gateway(job):
@@ -511,6 +574,21 @@ def _via_gateway(job):
     from cascade.gateway.api import JobSpec
     import cascade.benchmarks.__main__ as bm
     argv = []
+
+    def native(v):
+        # values JSON writes and reads back unchanged
+        if v is None or isinstance(v, (bool, int, float, str)):
+            return True
+        if isinstance(v, list):
+            return all(native(x) for x in v)
+        if isinstance(v, dict):
+            return all(isinstance(k, str) and native(x) for k, x in v.items())
+        return False
+    try:
+        expect_file = all(native(v) for t in job.tasks.values() for v in list(t.static_input_kw.values()) + list(t.static_input_ps.values()))
+    except Exception:
+        expect_file = False
+    GATEWAY_EXPECT[0] = expect_file
 
     class _Popen:
         def __init__(self, a, **kw):
@@ -667,6 +745,7 @@ class Runner:
         self.shm = FakeShm()
         self.events = []
         self.handled = []
+        self.kept = []          # (task, output, what Memory.local holds under that dataset right after Memory.handle)
         self.started = []       # (task id, what Memory.provide could find when the task started)
         self._saved = (memory.shm_client, memory.callback, entrypoint.callback, entrypoint.run)
         memory.shm_client = self.shm
@@ -689,7 +768,10 @@ class Runner:
         class RecMemory(memory.Memory):
             def handle(self, outputId, outputSchema, outputValue, isPublish):
                 outer.handled.append([outputId.task, outputId.output, enc(outputValue), bool(isPublish)])
-                return super().handle(outputId, outputSchema, outputValue, isPublish)
+                try:
+                    return super().handle(outputId, outputSchema, outputValue, isPublish)
+                finally:
+                    outer.kept.append([outputId.task, outputId.output, enc(getattr(self, "local", {}).get(outputId, _MISSING))])
 
         self.RecMemory = RecMemory
         self.mem = RecMemory("cb", self.worker)
@@ -772,6 +854,7 @@ class Runner:
             RECORD.pop(t, None)
         self.events.clear()
         self.handled.clear()
+        self.kept.clear()
         self.started.clear()
         before = self.snapshot()
         crash = None
@@ -797,7 +880,9 @@ class Runner:
             received = None
             if calls:
                 key, a, k = calls[0]
-                received = {"key": key, "args": [enc(x) for x in a], "kwargs": sorted([kk, enc(v)] for kk, v in k.items()), "calls": len(calls)}
+                received = {"key": key, "args": [enc(x) for x in a], "kwargs": [[kk, enc(v)] for kk, v in k.items()], "calls": len(calls),
+                            "all_same": all(c[0] == key and [enc(x) for x in c[1]] == [enc(x) for x in a] and
+                                            [[kk, enc(v)] for kk, v in c[2].items()] == [[kk, enc(v)] for kk, v in k.items()] for c in calls)}
             pubs = [e for e in self.events if isinstance(e, DatasetPublished) and e.ds.task == tid]
             completion = []
             for e in pubs:
@@ -809,13 +894,32 @@ class Runner:
             if failed is not None and (failed[0] == tid or (failed[0] is None and tid not in started)):
                 error = failed[1]
             tasks[tid] = {"started": tid in started, "avail": started.get(tid), "received": received,
-                          "handled": [h[1:] for h in self.handled if h[0] == tid], "error": error,
+                          "complete": all_published_real(self.job, tid, [e.ds.output for e in pubs]),
+                          "handled": [h[1:] for h in self.handled if h[0] == tid],
+                          "kept": [h[1:] for h in self.kept if h[0] == tid], "error": error,
                           "events": [[e.ds.task, e.ds.output] for e in pubs], "completion": completion}
         return {"tids": list(tids), "publish": [list(p) for p in publish], "before": before, "after": after, "failed": failed,
                 "nfailures": len(fails), "tasks": tasks}
 
 
 _MISSING = object()
+
+
+def all_published_real(job, task, notices):
+    """the answers of the REAL controller.notify.all_outputs_published (the rule by which notify decides that a task is
+    complete) to the DatasetPublished notices `notices` (output names) of one task, delivered in this order, starting from
+    a controller state that has seen none of them"""
+    import types
+    from cascade.controller.notify import all_outputs_published
+    from cascade.low.core import DatasetId
+    state = types.SimpleNamespace(published_outputs={})
+    out = []
+    for o in notices:
+        try:
+            out.append(bool(all_outputs_published(state, DatasetId(task, o), job)))
+        except Exception as e:
+            out.append("error:" + type(e).__name__)
+    return out
 
 
 def is_last_real(job, task, out):
